@@ -101,6 +101,8 @@ class Fragment(AbstractApplication):
         frag_offset = 0
         while frag_offset < len(payload_data):
             fctr = BundleContainer()
+            # a fragment of a received bundle is still a received bundle
+            fctr.actions = dict(ctr.actions)
             fctr.bundle.primary = ctr.bundle.primary.copy()
             fctr.bundle.primary.bundle_flags |= PrimaryBlock.Flag.IS_FRAGMENT
             fctr.bundle.primary.fragment_offset = frag_offset
